@@ -590,7 +590,7 @@ PROPS["C10"] = dict(
           "(unchecked_region); at level 0 every IR offset is bounded by the number of </> characters of the source "
           "(parse_offsets_le_length: the 'margin of the program's length').",
     not_proved="for optimised IR the bound of the window by the program length is checked per program (the region used in "
-               "the runs is excursion + length), not proved; events of unchecked runs = canonical rests on C02/C03's partial part",
+               "the runs is excursion + length), not proved; that the events of unchecked runs equal the canonical ones is a theorem at level 0 (mode-independence of the bytecode semantics + Props/ChainTotal) and rests on the per-program comparison for optimized programs (C01's open part)",
     rule="execute_unsafe on the bytecode interpreter and the JIT, levels 0-3, 4 widths, on contexts pre-grown to [lo - len - 1, "
          "hi + len + 1] (pointer excursion of the canonical run from a reference interpreter, len = program length), under the "
          "guard-page allocator (left and right): events must equal the canonical run's, the allocation must not grow, no fault. "
